@@ -38,6 +38,8 @@ struct SchedReader<'a> {
     /// the injected error is reported once; afterwards the reader goes on delivering (a timed-out socket read)
     one_shot: bool,
     fired: bool,
+    /// the injected io::Error carries an AsepriteParseError as its payload instead of the harness's marker
+    lib_payload: bool,
 }
 
 impl<'a> Read for SchedReader<'a> {
@@ -47,6 +49,10 @@ impl<'a> Read for SchedReader<'a> {
         if let Some((k, kind)) = self.err_at {
             if self.pos >= k && armed {
                 self.fired = true;
+                if self.lib_payload {
+                    // glue code that wraps one of the library's own errors into an io::Error
+                    return Err(std::io::Error::new(kind, AsepriteParseError::InvalidInput(format!("injected fault at byte {}", k))));
+                }
                 return Err(std::io::Error::new(kind, Marker(k)));
             }
         }
@@ -181,7 +187,7 @@ fn run_on(bytes: &[u8], l: usize, t: &mut Tape, thorough: bool, salt: usize, mod
     for (si, sc) in scheds.iter().enumerate() {
         let via_buf = t.below(3);
         let cap = 1 + t.below(8192) as usize;
-        let rd = SchedReader { data: bytes, pos: 0, sched: sc, idx: 0, err_at: None, reads: 0, one_shot: false, fired: false };
+        let rd = SchedReader { data: bytes, pos: 0, sched: sc, idx: 0, err_at: None, reads: 0, one_shot: false, fired: false, lib_payload: false };
         let r = match via_buf {
             0 => AsepriteFile::read(rd),
             1 => AsepriteFile::read(BufReader::with_capacity(cap, rd)),
@@ -233,7 +239,8 @@ fn run_on(bytes: &[u8], l: usize, t: &mut Tape, thorough: bool, salt: usize, mod
                 if one_shot && k % 3 != 1 {
                     continue;
                 }
-                let rd = SchedReader { data: bytes, pos: 0, sched, idx: 0, err_at: Some((k, *kind)), reads: 0, one_shot, fired: false };
+                let lib_payload = !one_shot && k % 5 == 2 && sched.len() == 1;
+                let rd = SchedReader { data: bytes, pos: 0, sched, idx: 0, err_at: Some((k, *kind)), reads: 0, one_shot, fired: false, lib_payload };
                 let r = if buffered { AsepriteFile::read(BufReader::with_capacity(16, rd)) } else { AsepriteFile::read(rd) };
                 faults += 1;
                 if k < l {
@@ -243,13 +250,19 @@ fn run_on(bytes: &[u8], l: usize, t: &mut Tape, thorough: bool, salt: usize, mod
                             if e.kind() != *kind {
                                 return Err(Failure::new("fault-kind-changed", format!("injected {:?} at {}, got io error kind {:?}", kind, k, e.kind())).with(detail(json!({"offset": k}))));
                             }
-                            let ok = e.get_ref().and_then(|r| r.downcast_ref::<Marker>()).map_or(false, |m| m.0 == k);
+                            if lib_payload {
+                                let ok = matches!(e.get_ref().and_then(|r| r.downcast_ref::<AsepriteParseError>()), Some(AsepriteParseError::InvalidInput(m)) if m.ends_with(&format!("byte {}", k)));
+                                if !ok {
+                                    return Err(Failure::new("fault-payload-lost", format!("injected {:?} at {} with one of the library's own error values as payload: the returned io::Error does not carry it ({:?})", kind, k, e)).with(detail(json!({"offset": k}))));
+                                }
+                            }
+                            let ok = lib_payload || e.get_ref().and_then(|r| r.downcast_ref::<Marker>()).map_or(false, |m| m.0 == k);
                             if !ok {
                                 return Err(Failure::new("fault-payload-lost", format!("injected {:?} at {}: returned io::Error does not carry the injected error ({:?})", kind, k, e)).with(detail(json!({"offset": k}))));
                             }
                             let outer = AsepriteParseError::IoError(e);
                             let src = std::error::Error::source(&outer);
-                            let src_ok = src.and_then(|s| s.downcast_ref::<std::io::Error>()).and_then(|io| io.get_ref()).and_then(|r| r.downcast_ref::<Marker>()).map_or(false, |m| m.0 == k);
+                            let src_ok = lib_payload && src.and_then(|s| s.downcast_ref::<std::io::Error>()).is_some() || src.and_then(|s| s.downcast_ref::<std::io::Error>()).and_then(|io| io.get_ref()).and_then(|r| r.downcast_ref::<Marker>()).map_or(false, |m| m.0 == k);
                             if !src_ok {
                                 return Err(Failure::new("fault-source-missing", format!("injected {:?} at {}: Error::source() is not the injected io::Error", kind, k)).with(detail(json!({"offset": k}))));
                             }
